@@ -195,15 +195,19 @@ func stripSeen(v ssa.Value, seen map[*ssa.Phi]bool) ssa.Value {
 // AddrKey gives a structural name to an address / value expression so that
 // two syntactically separate computations of the same l-value compare equal
 // (go/ssa has no CSE): "f.registry", "c.mu", "*f.writeMu".
+// FieldName names field i of st in address keys; the rules install a function
+// that maps a renamed field back to its canonical name.
+var FieldName = func(st *types.Struct, i int) string { return st.Field(i).Name() }
+
 func AddrKey(v ssa.Value) string {
 	v = Strip(v)
 	switch x := v.(type) {
 	case *ssa.FieldAddr:
 		st := x.X.Type().Underlying().(*types.Pointer).Elem().Underlying().(*types.Struct)
-		return AddrKey(x.X) + "." + st.Field(x.Field).Name()
+		return AddrKey(x.X) + "." + FieldName(st, x.Field)
 	case *ssa.Field:
 		st := x.X.Type().Underlying().(*types.Struct)
-		return AddrKey(x.X) + "." + st.Field(x.Field).Name()
+		return AddrKey(x.X) + "." + FieldName(st, x.Field)
 	case *ssa.UnOp:
 		if x.Op == token.MUL {
 			if p := Unbox(x); p != x {
